@@ -225,7 +225,7 @@ func c16ParseLeader(s string) c16Leader {
 // one pass of the follower's Run (handshake .. first error) of a case
 type c16Round struct {
 	Ls      []c16Leader // states of the leader during the session, Ls[0] at its start
-	Views   [][4]int    // per request: state read at gate/selfInspection, StartPoint, IsValidOffset, NewReader
+	Views   [][6]int    // per request: state read at gate + selfInspection's input ids, selfInspection's channel id, Handle's input ids, StartPoint(nil), IsValidOffset, NewReader
 	Cut     int         // messages delivered before the transport fails (<0: never)
 	Split   int         // >0: CONTINUE messages are re-chunked into pieces of 1..Split bytes
 	Quiet   bool        // the cut happens when the follower has persisted everything it received
@@ -233,20 +233,20 @@ type c16Round struct {
 	Stop    int         // >0: the leader is stopped (its syncer's wait closed) once that many CONTINUE messages of a transfer are out
 }
 
-func (r c16Round) view(n int) [4]int {
+func (r c16Round) view(n int) [6]int {
 	if n < len(r.Views) {
 		return r.Views[n]
 	}
 	if len(r.Views) == 0 {
-		return [4]int{}
+		return [6]int{}
 	}
-	k := r.Views[len(r.Views)-1][3]
-	return [4]int{k, k, k, k}
+	k := r.Views[len(r.Views)-1][5]
+	return [6]int{k, k, k, k, k, k}
 }
 
 func (r c16Round) static() bool {
 	for _, v := range r.Views {
-		if v != [4]int{} {
+		if v != [6]int{} {
 			return false
 		}
 	}
@@ -267,7 +267,7 @@ func (r c16Round) viewsString() string {
 	}
 	p := make([]string, len(r.Views))
 	for i, v := range r.Views {
-		p[i] = fmt.Sprintf("%d.%d.%d.%d", v[0], v[1], v[2], v[3])
+		p[i] = fmt.Sprintf("%d.%d.%d.%d.%d.%d", v[0], v[1], v[2], v[3], v[4], v[5])
 	}
 	return strings.Join(p, ",")
 }
@@ -293,9 +293,12 @@ func c16ParseRound(rs string) (r c16Round, err error) {
 	}
 	if q[1] != "." {
 		for _, vs := range strings.Split(q[1], ",") {
-			var v [4]int
+			var v [6]int
 			f := strings.Split(vs, ".")
-			if len(f) != 4 {
+			if len(f) == 4 { // older lines: four read points a.b.c.d = a.a.b.b.c.d
+				f = []string{f[0], f[0], f[1], f[1], f[2], f[3]}
+			}
+			if len(f) != 6 {
 				return r, fmt.Errorf("bad view %q", vs)
 			}
 			for i := range v {
@@ -851,9 +854,14 @@ type c16LChan struct {
 	hook func(point int)
 }
 
-func (c *c16LChan) IsValidOffset(o Offset) bool { c.hook(2); return c.Channel.IsValidOffset(o) }
-func (c *c16LChan) NewReader(o Offset) (ChannelReader, error) {
+func (c *c16LChan) RunId() string { c.hook(1); return c.Channel.RunId() } // selfInspection
+func (c *c16LChan) StartPoint(ids []string) (StartPoint, error) { // Handle: StartPoint(nil)
 	c.hook(3)
+	return c.Channel.StartPoint(ids)
+}
+func (c *c16LChan) IsValidOffset(o Offset) bool { c.hook(4); return c.Channel.IsValidOffset(o) }
+func (c *c16LChan) NewReader(o Offset) (ChannelReader, error) {
+	c.hook(5)
 	return c.Channel.NewReader(o)
 }
 
@@ -1115,8 +1123,8 @@ func (x *c16Ctx) startSession(t *testing.T, srv *c16Server, bk string, logSize i
 		ss.runIds++
 		k := ss.runIds
 		ss.mu.Unlock()
-		if k == 2 { // Handle's own read of the input ids, just before StartPoint(nil)
-			ss.hook(1)
+		if k == 2 { // Handle's own read of the input ids
+			ss.hook(2)
 		}
 	}
 	rt.leader = NewReplicaLeader(rt.input, &c16LChan{Channel: rt.lch, hook: ss.hook})
@@ -1512,7 +1520,7 @@ func (x *c16Ctx) runCase(t *testing.T, srv *c16Server, c c16Case, src string) (u
 		rm := r
 		ss.mu.Lock()
 		if ss.stopped {
-			var views [][4]int
+			var views [][6]int
 			for i := 0; i < ss.rpc; i++ {
 				views = append(views, r.view(i))
 			}
@@ -1523,10 +1531,10 @@ func (x *c16Ctx) runCase(t *testing.T, srv *c16Server, c c16Case, src string) (u
 				if h == nil {
 					h = &c16Halt{} // a request after the stop: nothing gets out any more
 				}
-				hl := r.Ls[views[n][3]]
+				hl := r.Ls[views[n][5]]
 				hl.Halt = h
 				rm.Ls = append(rm.Ls, hl)
-				views[n][3] = len(rm.Ls) - 1
+				views[n][5] = len(rm.Ls) - 1
 				fault = fault || h.Fault
 			}
 			rm.Views = views
@@ -1897,7 +1905,7 @@ func c16Evolve(r *vfutil.Rand, l c16Leader) c16Leader {
 
 // what the leader's own input does while followers are being served (syncer/input.go):
 // the states it passes through, and the read of which request sees which
-func c16GenDyn(r *vfutil.Rand, l0 c16Leader) ([]c16Leader, [][4]int) {
+func c16GenDyn(r *vfutil.Rand, l0 c16Leader) ([]c16Leader, [][6]int) {
 	seq := []c16Leader{l0}
 	other := "idC"
 	if l0.Cur == "idC" {
@@ -1948,17 +1956,17 @@ func c16GenDyn(r *vfutil.Rand, l0 c16Leader) ([]c16Leader, [][4]int) {
 	}
 	m := len(seq) - 1
 	n := r.Intn(3)       // the request during which the input acts
-	k := r.Intn(4)       // … before which of its reads
+	k := r.Intn(6)       // … before which of its reads
 	j := 1 + r.Intn(m)   // … how far it gets there
-	var views [][4]int
+	var views [][6]int
 	for i := 0; i < n; i++ {
-		views = append(views, [4]int{})
+		views = append(views, [6]int{})
 	}
-	var v [4]int
-	for p := k; p < 4; p++ {
+	var v [6]int
+	for p := k; p < 6; p++ {
 		v[p] = j
 	}
-	views = append(views, v, [4]int{m, m, m, m})
+	views = append(views, v, [6]int{m, m, m, m, m, m})
 	return seq, views
 }
 
@@ -2135,7 +2143,7 @@ func (x *c16Ctx) family(t *testing.T, srv *c16Server, c c16Case, r *vfutil.Rand,
 		s1.Tail = nil
 		s1.Ids = []string{other, l0.Cur}
 		cc := c
-		cc.Rounds = []c16Round{{Ls: []c16Leader{l0, s1}, Views: [][4]int{{}, {1, 1, 1, 1}}, Cut: -1, Quiet: true}}
+		cc.Rounds = []c16Round{{Ls: []c16Leader{l0, s1}, Views: [][6]int{{}, {1, 1, 1, 1, 1, 1}}, Cut: -1, Quiet: true}}
 		x.runCase(t, srv, cc, "aheadclear")
 	}
 	// the leader's own input acts during the session
